@@ -122,6 +122,7 @@ def run_case(case):
     found = []
     seen = set()
     nontriv = []
+    wire = set()
     n = 0
     httpx.AsyncClient = Patched
     try:
@@ -192,6 +193,9 @@ def run_case(case):
                                     for hname in ("x-a", "x-b"):
                                         if hname in sent and not any(hk.lower() == hname for hk in eh):
                                             add("header", "a header nobody supplied for this request is on the wire", f"{hname}: {sent[hname]}")
+                                    wire.add("auth=" + ",".join(sent.get("authorization", ["-"])) + "|x-a=" + ",".join(sent.get("x-a", ["-"]))
+                                             + "|x-api-key=" + ",".join(sent.get("x-api-key", ["-"])) + "|cookie=" + sent.get("cookie", ["-"])[0]
+                                             + "|q=" + r.url.query.decode())
                                     qs = dict(r.url.params.multi_items())
                                     for qk, qv in eq.items():
                                         if qs.get(qk) != qv:
@@ -220,4 +224,4 @@ def run_case(case):
     finally:
         httpx.AsyncClient = real
     return {"findings": found, "evals": n, "nontrivial": nontriv, "nontrivial_multi": True,
-            "outcome": "finding" if found else "ok", "sample": {"first_sequence": case["seqs"][0], "sequences": len(case["seqs"]), "requests": n}}
+            "outcome": "finding" if found else "ok", "outcomes": sorted(wire), "sample": {"first_sequence": case["seqs"][0], "sequences": len(case["seqs"]), "requests": n}}
